@@ -33,6 +33,10 @@
                                     branch for any `op`, in the Lanczos branch when
                                     `⟪x, op y⟫ = c ⟪op x, y⟫` (`op† = c̄·op`), and
                                     `op q_k ∈ span{q_0,…,q_{k+1}}`.
+  FINDING D20-C07 (unchanged code violates the accuracy clause inside the quantifier):
+       * `early_accept_witness`, `neglected_second_order_term` – kernel-checked exact run of the
+         model on the 1-atom witness: accepted at iteration 1 with the first-order Taylor vector
+         while the neglected term is 1500·tol (`err2` uses ‖op v_j‖, Expokit uses ‖op v_{j+1}‖).
   NOT proved (kept as `def … : Prop`):
        * `AccuracyClause` – "converged ⇒ ‖result − exp(A)v‖ ≤ 10·tol·‖v‖": Expokit's a-posteriori
          estimate is a heuristic, not a bound. Validated against `scipy.linalg.expm` by the harness.
@@ -271,6 +275,100 @@ def BreakdownExact : Prop :=
     r.result = (NormedSpace.exp A) v
 
 end Unproved
+
+/-! ### Finding D20-C07: the estimate accepts a first-order result (kernel-checked model run)
+
+On the unchanged code the accuracy clause FAILS inside the property's quantifier (found by the C01
+check, reproduced and classified by harness/props/c07.py): one atom in |g⟩, weak drive, large
+detuning, `A = -i·dt·H` with `H = [[0, Ω/2], [Ω/2, -δ]]`. Below the model is run in *exact*
+arithmetic over the Gaussian rationals (all norms taken on this input are rational), with the
+exact exponential of the nilpotent extended matrix `T` (`T³ = 0`, so `exp T = 1 + T + T²/2`):
+it accepts at iteration 1 and returns the first-order Taylor vector `v + A v`, although the
+neglected second-order term `A²v/2` is 1500 × the tolerance. (That `‖exp(A)v − v − Av‖` is within
+1 % of `‖A²v/2‖` is the analytic step that is *not* kernel-checked here; the harness checks it
+against `scipy.linalg.expm` on the real code.) -/
+section Finding
+
+structure GQ where
+  re : ℚ
+  im : ℚ
+  deriving DecidableEq
+
+instance : OfNat GQ 0 := ⟨⟨0, 0⟩⟩
+instance : OfNat GQ 1 := ⟨⟨1, 0⟩⟩
+instance : Mul GQ := ⟨fun a b => ⟨a.re * b.re - a.im * b.im, a.re * b.im + a.im * b.re⟩⟩
+instance : Add GQ := ⟨fun a b => ⟨a.re + b.re, a.im + b.im⟩⟩
+instance : Sub GQ := ⟨fun a b => ⟨a.re - b.re, a.im - b.im⟩⟩
+
+def GQ.conj (z : GQ) : GQ := ⟨z.re, -z.im⟩
+def GQ.nsq (z : GQ) : ℚ := z.re * z.re + z.im * z.im
+/-- square root, exact on squares of rationals (the only arguments it gets below) -/
+def ratSqrt (q : ℚ) : ℚ := (Nat.sqrt q.num.natAbs : ℚ) / (Nat.sqrt q.den : ℚ)
+
+def gqOps (a b c d : GQ) : VecOps GQ ℚ (GQ × GQ) where
+  op x := (a * x.1 + b * x.2, c * x.1 + d * x.2)
+  inner x y := x.1.conj * y.1 + x.2.conj * y.2
+  norm x := ratSqrt (x.1.nsq + x.2.nsq)
+  axpy k q w := (w.1 - k * q.1, w.2 - k * q.2)
+  divR x r := (⟨x.1.re / r, x.1.im / r⟩, ⟨x.2.re / r, x.2.im / r⟩)
+  zero := (0, 0)
+  add x y := (x.1 + y.1, x.2 + y.2)
+  smul k x := (k * x.1, k * x.2)
+  ofReal r := ⟨r, 0⟩
+  re z := z.re
+  cabs z := ratSqrt z.nsq
+
+def mmul (X Y : Mat GQ) : Mat GQ :=
+  let n := X.size
+  (Array.range n).map fun i => (Array.range n).map fun j =>
+    (List.range n).foldl (fun acc k => acc + getM X i k * getM Y k j) 0
+
+/-- `1 + T + T²/2` -/
+def taylor2 (_ : Nat) (T : Mat GQ) : Mat GQ :=
+  let n := T.size
+  let T2 := mmul T T
+  (Array.range n).map fun i => (Array.range n).map fun j =>
+    (if i = j then (1 : GQ) else 0) + getM T i j + (⟨1 / 2, 0⟩ : GQ) * getM T2 i j
+
+def wβ : ℚ := 1 / 100000      -- dt·Ω/2   (Ω = 0.02 rad/µs, dt = 1 ns)
+def wd : ℚ := 3 / 100         -- dt·|δ|   (δ = −30 rad/µs)
+def wtol : ℚ := 1 / 10000000000
+/-- `A = -i·dt·[[0, Ω/2], [Ω/2, -δ]]` -/
+def wOps : VecOps GQ ℚ (GQ × GQ) := gqOps 0 ⟨0, -wβ⟩ ⟨0, -wβ⟩ ⟨0, -wd⟩
+def wCfg (herm : Bool) : ExpCfg ℚ := { isHermitian := herm, expTol := wtol, normTol := wtol, maxDim := 100 }
+
+/-- the extended `T` of iteration 0 on this input; it is nilpotent, so `taylor2` is its exponential -/
+def wT : Mat GQ := #[#[0, 0, 0], #[⟨wβ, 0⟩, 0, 0], #[0, 1, 0]]
+example : mmul wT (mmul wT wT) = #[#[0, 0, 0], #[0, 0, 0], #[0, 0, 0]] := by decide +kernel
+/-- the square roots taken on this input are exact -/
+example : ratSqrt (wβ * wβ) = wβ ∧ ratSqrt 1 = 1 ∧ ratSqrt ((wβ / 2) * (wβ / 2)) = wβ / 2 := by decide +kernel
+
+/-- everything observable about the run, compared with the expected values -/
+def wCheck (r : Except Err (ExpResult GQ ℚ (GQ × GQ))) : Bool :=
+  match r with
+  | .ok r => r.converged && !r.happyBreakdown && r.iterationCount == 1
+      && decide (r.result = ((1 : GQ), (⟨0, -wβ⟩ : GQ)))
+      && decide (r.ghost.errs = [(wβ, wβ * wβ / 2)])
+      && decide (sliceM r.ghost.T 3 = wT)
+  | .error _ => false
+
+/-- **Witness (model, exact arithmetic, both branches):** the run is accepted at iteration 1
+(`converged`, not `happy_breakdown`, `iteration_count = 1`) — `err1 = β = 1e-5`,
+`err2 = β²/2 = 5e-11`, `err = err1·err2/(err1−err2) < 1e-10` — the matrix exponentiated is `wT`,
+and the vector returned is `v + A v = (1, −iβ)`. -/
+theorem early_accept_witness (herm : Bool) :
+    wCheck (expImpl wOps taylor2 (wCfg herm) (1, 0)) = true := by
+  cases herm <;> decide +kernel
+
+/-- **…but the neglected second-order term `A²v/2 = (−β²/2, −βd/2)` is 1500 × the tolerance**
+(and 150 × the `10·tol` the property allows). -/
+theorem neglected_second_order_term :
+    let Av := wOps.op (1, 0)
+    let AAv := wOps.op Av
+    AAv = (⟨-(wβ * wβ), 0⟩, ⟨-(wβ * wd), 0⟩) ∧ ratSqrt ((wβ * wd / 2) * (wβ * wd / 2)) = 1500 * wtol := by
+  decide +kernel
+
+end Finding
 
 /-! ### non-vacuity: concrete runs of the model reaching each of the three exits -/
 section Examples
